@@ -16,7 +16,7 @@ LEVEL = "exploration"
 RULE = (
     "inner apps: 14 response recipes (all response classes, two Set-Cookie, unknown status codes, 0..3-chunk streams, file with Range, event stream), 9 raw WSGI / 7 raw ASGI applications "
     "(list, tuple, generator, empty iterable, iterable with close(), 1..3 body messages, raising before/after start and after the first chunk) x every stack of depth 0..3 over "
-    "{M identity middleware, E header-editing middleware} (and {D identity decorator} below request_response for view-based recipes) x {GET, HEAD, POST+body} x {WSGI, ASGI}. "
+    "{M identity middleware, E header-editing middleware, C cookie-adding middleware} (and {D identity decorator} below request_response for view-based recipes) x {GET, HEAD, POST+body} x {WSGI, ASGI}. "
     "non-trivial = stack depth >= 1."
 )
 ASSUMPTIONS = [
@@ -71,6 +71,9 @@ def recipes(iface, tmpfile):
         "file": lambda req: mod.FileResponse(tmpfile),
         "sse": lambda req: mod.SendEventResponse(stream([{"data": "1"}, {"event": "e", "data": "2"}]), ping_interval=60),
         "echo": echo,
+        "big64k": lambda req: mod.PlainTextResponse(b"x" * 65536),
+        "big64k+": lambda req: mod.PlainTextResponse(b"y" * 65537),
+        "bigstream": lambda req: mod.StreamResponse(stream([b"a" * 40000, b"b" * 40000, b"c" * 51072])),
     }
     return out
 
@@ -86,6 +89,15 @@ def raw_apps(iface):
                 app.calls += 1
                 if shape == "raise_before":
                     raise Boom("before")
+                if shape == "restart_exc_info":
+                    # legal per PEP 3333: replace the response by an error page before any body byte went out
+                    start_response("200 OK", [("content-type", "text/plain"), ("x-first", "1")])
+                    try:
+                        raise Boom("late failure")
+                    except Boom:
+                        import sys
+                        start_response("500 Internal Server Error", [("content-type", "text/plain"), ("x-second", "1")], sys.exc_info())
+                    return [b"error page"]
                 if shape == "list_caps":  # a plain WSGI app is free to capitalise header names
                     start_response("200 OK", [("Content-Type", "text/plain"), ("Set-Cookie", "a=1"), ("Set-Cookie", "b=2"), ("X-Multi", "1"), ("X-Multi", "2"), ("x-multi", "3")])
                     return [b"hello"]
@@ -132,7 +144,7 @@ def raw_apps(iface):
             app.calls = 0
             app.closed = 0
             return app
-        return {s: (lambda s=s: mk(s)) for s in ("list", "list_caps", "list2", "tuple", "empty", "empty_iter", "gen", "closeable", "raise_before", "raise_after_start", "raise_after_chunk")}
+        return {s: (lambda s=s: mk(s)) for s in ("list", "list_caps", "restart_exc_info", "list2", "tuple", "empty", "empty_iter", "gen", "closeable", "raise_before", "raise_after_start", "raise_after_chunk")}
 
     def amk(shape):
         async def app(scope, receive, send):
@@ -173,6 +185,12 @@ def wrappers(iface):
         @mod.decorator
         def D(request, next_call):
             return next_call(request)
+
+        @mod.middleware
+        def C(request, next_call):
+            resp = next_call(request)
+            resp.set_cookie("mw", "1")
+            return resp
     else:
         @mod.middleware
         async def M(request, next_call):
@@ -187,7 +205,13 @@ def wrappers(iface):
         @mod.decorator
         async def D(request, next_call):
             return await next_call(request)
-    return {"M": M, "E": E, "D": D}
+
+        @mod.middleware
+        async def C(request, next_call):
+            resp = await next_call(request)
+            resp.set_cookie("mw", "1")
+            return resp
+    return {"M": M, "E": E, "D": D, "C": C}
 
 
 def build(iface, name, stack, tmpfile):
@@ -351,7 +375,7 @@ def run_shard(desc, tier):
         with open(tmpfile, "wb") as f:
             f.write(b"0123456789")
         is_view = name in recipes(iface, tmpfile)
-        names = ["M", "E", "D"] if is_view else ["M", "E"]
+        names = ["M", "E", "D", "C"] if is_view else ["M", "E", "C"]
         for method, headers, chunks in requests_menu():
             bare_app, bare_count = build(iface, name, (), tmpfile)
             bare = run(iface, bare_app, method, headers, chunks)
@@ -384,7 +408,7 @@ def run_shard(desc, tier):
                     r.violation("status-differs", w, f"{where}: status {res.status} vs bare {bare.status}")
                 elif res.body != bare.body:
                     r.violation("body-differs", w, f"{where}: body {res.body[:60]!r} vs bare {bare.body[:60]!r}")
-                elif gc != bc:
+                elif gc != sorted(bc + ["mw=1; path=/; samesite=lax"] * stack.count("C")):
                     r.violation("set-cookie-lines-differ", w, f"{where}: Set-Cookie lines {gc} vs bare {bc}")
                 elif gh != bh:
                     diff = sorted(set(map(tuple, gh)) ^ set(map(tuple, bh)))
